@@ -154,6 +154,25 @@ func runC03(e *emitter, tier string, seed uint64) {
 			return tmpl.JSFuncInline("console.log", s)
 		}},
 	}
+	// the same expression text in several positions of ONE script element: each occurrence is encoded for its own
+	// position, i.e. the element is the concatenation of what the single-position fixtures render
+	doTwice := func(s string) {
+		k := "postwice " + s
+		if !e.mine(k) {
+			return
+		}
+		piece := func(c templ.Component, pre, suf string) string {
+			d := render(c, bg)
+			return strings.TrimSuffix(strings.TrimPrefix(d, pre), suf)
+		}
+		bare := piece(tmpl.ScriptBare(s), "<script>const x = ", ";</script>")
+		single := piece(tmpl.ScriptSingle(s), "<script>const x = '", "';</script>")
+		double := piece(tmpl.ScriptDouble(s), "<script>const x = \"", "\";</script>")
+		back := piece(tmpl.ScriptBacktick(s), "<script>const x = `", "`;</script>")
+		want1 := "<script>const a = " + bare + "; const b = '" + single + "'; const c = \"" + double + "\"; const d = `" + back + "`; const e = " + bare + ";</script>"
+		want2 := "<script>const b = '" + single + "'; const a = " + bare + "; const c = \"" + double + "\";</script>"
+		e.emit(k, "postwice", hx(s), hx(render(tmpl.ScriptTwiceBareFirst(s), bg)), hx(want1), hx(render(tmpl.ScriptTwiceQuotedFirst(s), bg)), hx(want2))
+	}
 	posByName := map[string]pos{}
 	for _, p := range positions {
 		posByName[p.name] = p
@@ -213,6 +232,12 @@ func runC03(e *emitter, tier string, seed uint64) {
 		for _, s := range shorts {
 			doPos(p, s)
 		}
+	}
+	for _, s := range adversarial {
+		doTwice(s)
+	}
+	for _, s := range shorts {
+		doTwice(s)
 	}
 	r := &rng{s: seed}
 	nr := 3000
